@@ -5276,7 +5276,7 @@ EmitDone:
 
 Failed:
 #ifndef ASMJIT_NO_LOGGING
-  return EmitterUtils::log_instruction_failed(this, err, inst_id, options, o0, o1, o2, op_ext);
+  return EmitterUtils::log_instruction_failed(this, err, BaseInst::compose_arm_inst_id(inst_id, inst_cc), options, o0, o1, o2, op_ext);
 #else
   reset_state();
   return report_error(err);
